@@ -226,8 +226,12 @@ instance (t : List Nat) : Decidable (isDigits t) := by unfold isDigits; infer_in
 
 def LineLay.wf (l : LineLay) : Prop := isBlank l.lead ∧ isBlank l.trail ∧ ∀ s ∈ l.seps, isSep s
 
+instance (l : LineLay) : Decidable l.wf := by unfold LineLay.wf; infer_instance
+
 /-- a declaration whose own tokens read `UTIM DATE TIME …` would be taken for the header line -/
 def Decl.headerLike (d : Decl) : Prop := [sUTIM, sDATE, sTIME] <+: declTokens d
+
+instance (d : Decl) : Decidable d.headerLike := by unfold Decl.headerLike; infer_instance
 
 def Decl.wf (d : Decl) : Prop :=
   isName d.name ∧ d.words ≠ [] ∧ (∀ w ∈ d.words, isTok w) ∧ isTok d.units ∧ ¬ d.headerLike
